@@ -293,8 +293,8 @@ class C09Engine(Engine):
                 "process pool is SimMP (arrival order, lazy iterator consumption and pickling decided by the tape). "
                 "Oracle: per (input, options modulo num_threads, prior parameters) the output tables must be bit "
                 "identical to a clean evaluation (fresh prior, no pool); with a shared prior that has been converted "
-                "between probability spaces, equal within rtol 1e-8; the shared prior must be unchanged (rtol 1e-11 per "
-                "conversion). Part 'restart_sweep' replays the first runs in fresh interpreters under other "
+                "between probability spaces, equal within rtol 1e-8 (whether the caller's prior object itself changed is "
+                "recorded as a probe). Part 'restart_sweep' replays the first runs in fresh interpreters under other "
                 "PYTHONHASHSEED values and compares every per-call digest. Non-trivial = the history contained a pool "
                 "call with a non-FIFO arrival order, a reused prior or a repeated call; distinct = event-log digest.")
 
